@@ -1812,6 +1812,9 @@ class Interp:
         if b[0] == "c" and k[0] == "c":
             try:
                 return ("c", b[1][k[1]])
+            except (IndexError, KeyError) as x_:
+                # a constant sequence / mapping indexed outside itself raises what Python raises
+                raise _Raise(("ext", type(x_).__name__, []), "%s: %s" % (type(x_).__name__, x_))
             except Exception:
                 return ("unk", "bad index")
         if b[0] == "obj" and b[1].cls is not None:
